@@ -21,8 +21,8 @@ GCC_F="-std=c++20 -O1 -DNDEBUG -g1 -fsanitize=address -fno-omit-frame-pointer $I
 GCC_N="$GCC_F -ftrivial-auto-var-init=zero"
 
 # the engine is compiled per flavour with the same library-mode defines (one definition of every inline std:: function per executable)
-par clang++ -std=c++17 -O2 -D_GLIBCXX_ASSERTIONS -c -I$MC $MC/mc.cpp -o $BUILD/clang_mc.o
-par g++ -std=c++17 -O2 -c -I$MC $MC/mc.cpp -o $BUILD/gcc_mc.o
+par clang++ -std=c++20 -O2 -D_GLIBCXX_ASSERTIONS -c -I$MC $MC/mc.cpp -o $BUILD/clang_mc.o
+par g++ -std=c++20 -O2 -c -I$MC $MC/mc.cpp -o $BUILD/gcc_mc.o
 par clang++ $CLANG_F -c $H/c09_main.cpp -o $BUILD/clang_main.o
 par g++ $GCC_F -c $H/c09_main.cpp -o $BUILD/gcc_main.o
 
